@@ -976,6 +976,13 @@ impl View {
         }
         v
     }
+    /// same view without pending diagnostics (they are not part of a save)
+    pub fn without_diagnostics(&self) -> View {
+        let mut v = self.clone();
+        v.errors.clear();
+        v.warnings.clear();
+        v
+    }
     pub fn diff(&self, other: &View) -> Option<String> {
         if self.can_continue != other.can_continue {
             return Some(format!(
@@ -1035,7 +1042,13 @@ pub fn canonicalize(j: &J, under_origins: bool) -> J {
             let mut keys: Vec<&String> = o.keys().collect();
             keys.sort();
             let mut m = serde_json::Map::new();
+            // a pending choice's "index" is a display cache that get_current_choices()
+            // refreshes and no loader reads back: not part of the state
+            let is_choice = o.contains_key("originalChoicePath") && o.contains_key("targetPath");
             for k in keys {
+                if is_choice && k == "index" {
+                    continue;
+                }
                 m.insert(k.clone(), canonicalize(&o[k], k == "origins"));
             }
             J::Object(m)
